@@ -272,14 +272,71 @@ Definition pwf_prog (p : rules_file) : bool :=
   pwf_lets (rf_lets p) && forallb pwf_rule (rf_rules p) && forallb (fun pr => pwf_rule (pr_rule pr)) (rf_param_rules p).
 
 (* ------------------------------------------------------------------ *)
-(* key-consistent values: the key list of a struct names only keys the struct holds (the invariant of
+(* key-consistent values: the key list of a struct holds strings, and names only keys the struct holds (the invariant of
    PathAwareValue::Map that guards the one panic site PanicProps leaves open); evaluated on every loaded document *)
 
 Fixpoint wfv (v : pv) : bool :=
   match v with
   | PList _ l => forallb wfv l
   | PMap _ keys vals =>
-      forallb (fun k => match k with PString _ kn => match assoc kn vals with Some _ => true | None => false end | _ => true end) keys
+      forallb (fun k => match k with PString _ kn => match assoc kn vals with Some _ => true | None => false end | _ => false end) keys
       && (fix go (l : list (string * pv)) : bool := match l with [] => true | (_, x) :: r => wfv x && go r end) vals
   | _ => true
   end.
+
+(* ------------------------------------------------------------------ *)
+(* every literal value written in a rules file is key-consistent (the parser builds literals with TryFrom<(&Value, Path)>,
+   i.e. Value.annotate, which is: PanicProps.annotate_wfv); an executable predicate the C08 correspondence evaluates on every
+   AST the implementation parses *)
+Fixpoint vwf_lv (v : let_value) : bool :=
+  match v with
+  | LValue x => wfv x
+  | LAccess q => vwf_aq q
+  | LFunction ps _ => forallb vwf_lv ps
+  end
+with vwf_part (p : query_part) : bool :=
+  match p with
+  | QMapKeyFilter _ _ w => vwf_lv w
+  | QFilter _ cnf => forallb (forallb vwf_clause) cnf
+  | _ => true
+  end
+with vwf_aq (a : access_query) : bool :=
+  match a with AccessQuery q _ => forallb vwf_part q end
+with vwf_ac (c : access_clause) : bool :=
+  match c with
+  | GuardAccessClause q _ w _ _ => vwf_aq q && match w with None => true | Some v => vwf_lv v end
+  end
+with vwf_clause (g : guard_clause) : bool :=
+  match g with
+  | GClause c => vwf_ac c
+  | GNamedRule _ => true
+  | GParameterizedNamedRule ps _ => forallb vwf_lv ps
+  | GBlockClause q b _ => vwf_aq q && vwf_block b
+  | GWhenBlock conds b => forallb (forallb vwf_wc) conds && vwf_block b
+  end
+with vwf_wc (w : when_clause) : bool :=
+  match w with
+  | WClause c => vwf_ac c
+  | WNamedRule _ => true
+  | WParameterizedNamedRule ps _ => forallb vwf_lv ps
+  end
+with vwf_block (b : gblock) : bool :=
+  match b with
+  | Block lets cnf => forallb (fun l => vwf_lv (snd l)) lets && forallb (forallb vwf_clause) cnf
+  end.
+
+Definition vwf_query (q : query) : bool := forallb vwf_part q.
+Definition vwf_cnf (cnf : list (list guard_clause)) : bool := forallb (forallb vwf_clause) cnf.
+Definition vwf_conds (c : when_conditions) : bool := forallb (forallb vwf_wc) c.
+Definition vwf_oconds (c : option when_conditions) : bool := match c with Some c => vwf_conds c | None => true end.
+Definition vwf_lets (lets : list let_expr) : bool := forallb (fun l => vwf_lv (snd l)) lets.
+Definition vwf_rc (c : rule_clause) : bool :=
+  match c with
+  | RClause g => vwf_clause g
+  | RWhenBlock conds b => vwf_conds conds && vwf_block b
+  | RTypeBlock _ conds b q => vwf_oconds conds && vwf_block b && vwf_query q
+  end.
+Definition vwf_rule (x : rule) : bool :=
+  vwf_oconds (rule_conditions x) && vwf_lets (rule_lets x) && forallb (forallb vwf_rc) (rule_cnf x).
+Definition vwf_prog (p : rules_file) : bool :=
+  vwf_lets (rf_lets p) && forallb vwf_rule (rf_rules p) && forallb (fun pr => vwf_rule (pr_rule pr)) (rf_param_rules p).
